@@ -106,7 +106,7 @@ Common(tr, T, ev) ==
        \A k \in (1..NLw(tr)) \ part : post.vol[k] = vol[k] /\ pc[k] = comp[k] /\ post.hn[k] = hn[k]),
     Cl("C05.sane", F.comp /\ cok /\ ev.cs,
        \A k \in 1..NLw(tr) : CompSane(post.vol[k], pc[k])),
-    Cl("C05.normalised", F.norm /\ ev.cs,
+    Cl("C05.normalised", F.norm /\ cok /\ ev.cs,
        \A k \in 1..NLw(tr) : CompNormalisedAll(post.vol[k], pc[k])),
     Cl("C09.wellformed", F.records /\ ev.recs # <<>>,
        \A i \in 1..Len(ev.recs) : ev.recs[i].t \in {"BA", "BD", "BW"} \/ WellFormed(ev.recs[i])),
@@ -163,7 +163,8 @@ JudgeLabwareOp(tr, T, ev) ==
     Cl("C02.offender", valid /\ rout \in {"overflow", "underflow"},
        \E n \in 0..rn : post.vol[k] = (IF isAdd THEN AddPrefix(L, vol[k], P.ws, P.vs, n)
                                        ELSE RemovePrefix(L, vol[k], P.ws, P.vs, n))),
-    Cl("C02.negative", ~NonNeg(P.vs), ev.out # "ok" /\ post.vol = vol),
+    \* negative (and NaN) volumes for add/remove are outside every quantifier: no property says what must happen, so
+    \* nothing is demanded of the call itself; whatever it does, C02.bounds and C02.okbounds still apply to the result
     Cl("C05.mix", F.comp /\ cok /\ ev.cs /\ isAdd /\ valid /\ rout = "ok" /\ ev.out = "ok",
        \A i \in 1..Len(rvol) : rvol[i] > 0 => pc[k][i] = ra.comp[i]),
     \* a rejected addition leaves volumes AND compositions of one and the same prefix of the per-well updates
